@@ -18,7 +18,7 @@ pub fn prop() -> Prop {
 fn spec() -> Spec {
     Spec {
         kinds: vec![Kind { name: "ik_complete", quick: 800_000, thorough: 20_000_000, serial: false }],
-        rule: "each case = generated non-degenerate 6-DOF robot (industrial, bundled, zero-heavy, negative lengths; 64 sign patterns; offsets) x joint vector q (uniform, round multiples of 15 degrees, or placed close to the singularity margins); the pose comes from the reference chain or the library's forward(), half of the time written with the negated quaternion; inverse(FK_ref(q)) must contain q mod 2pi, the wrist-flipped twin of every answer, no duplicates, and re-solving the pose of every answer must give the same set; cases with a singularity measure below the margin are inconclusive(near-singular); non-trivial = in-domain case with >= 1 answer; distinct = hash(robot, q) Workload additions: solvers built through either constructor; a third of the robots asked through Tool / Base / Frame stacks of depth 1-2 (incl. tiny rotations, identity / rotation-only / translation-only transforms).",
+        rule: "each case = generated non-degenerate 6-DOF robot (industrial, bundled, zero-heavy, negative lengths; 64 sign patterns; offsets) x joint vector q (uniform, round multiples of 15 degrees, or placed close to the singularity margins); the pose comes from the reference chain or the library's forward(), half of the time written with the negated quaternion; inverse(FK_ref(q)) must contain q mod 2pi, the wrist-flipped twin of every answer, no duplicates, and re-solving the pose of every answer must give the same set; cases with a singularity measure below the margin are inconclusive(near-singular); non-trivial = in-domain case with >= 1 answer; distinct = hash(robot, q) Workload additions: solvers built through either constructor; a third of the robots asked through Tool / Base / Frame stacks of depth 1-2 (incl. tiny rotations, identity / rotation-only / translation-only transforms). Rounds 7-9: the classic J2->J3 parallelogram innermost in a tenth of the cases (joint-by-joint modulo-2pi comparison except exactly at the seam of the driven joint); axis-aligned joint vectors.",
         assumptions: vec![
             "domain margins: |sin t5|, |sin(t3+psi3)| and wrist-centre distance from axis 1 / reach all >= 1e-3 (refmodel measures)",
             "match tolerance modulo 2pi: 1e-6 rad per joint when all margins >= 1e-2, else 1e-4",
